@@ -680,7 +680,7 @@ def strategy(tier):
 PARTS = [
     Part('history', run, strategy=strategy,
          examples={'quick': 2400, 'thorough': 60000},
-         floors={'non-int-keys': 0.1, 'merge': 0.25, 'remerge': 0.08, 'remerge-after-removal': 0.01, 'remerge-after-bulk-add': 0.008,
+         floors={'non-int-keys': 0.1, 'merge': 0.25, 'remerge': 0.08, 'remerge-after-removal': 0.01, 'remerge-after-bulk-add': 0.004,
                  'remerge-after-implicit-add': 0.008, 'edit-of-copy': 0.05, 'edit-of-subgraph': 0.05,
                  'invalid-interaction': 0.05, 'system-merge': 0.05}),
 ]
